@@ -5,6 +5,7 @@ Executable model of `model.py::_check_if_is_sortable` and `_sort_dependencies`
 Python sets are modelled as lists used only through membership.
 -/
 import MxlVerif.Core.Basic
+import MxlVerif.Generated.C02
 namespace Mxl
 
 structure Dep where
@@ -65,6 +66,6 @@ def sortLoop (els : List Dep) :
 
 def sortDeps (av : List Name) (els : List Dep) : Except Err (List Name) := do
   checkSortable av els
-  sortLoop els (els.length * els.length) av els none []
+  sortLoop els (Generated.C02.maxIterations els.length) av els none []
 
 end Mxl
